@@ -72,6 +72,33 @@ Proof.
     apply existsb_exists. exists r. split; [exact Hr|]. apply andb_true_iff. split; now apply memq_In.
 Qed.
 
+Lemma paths_hit_spec y ps : paths_hit y ps = true <-> exists vs, In (Some vs) ps /\ In y vs.
+Proof.
+  induction ps as [|[vs|] r IH]; cbn [paths_hit].
+  - split; [discriminate|intros [vs [[] _]]].
+  - rewrite orb_true_iff, IH. split.
+    + intros [H|[vs' [H1 H2]]]; [exists vs; split; [now left|now apply memq_In]|exists vs'; split; [now right|exact H2]].
+    + intros [vs' [[E|H1] H2]]; [left; injection E as ->; now apply memq_In|right; eauto].
+  - rewrite IH. split; intros [vs [H1 H2]]; exists vs; (split; [|exact H2]); [now right|destruct H1 as [E|H1]; [discriminate|exact H1]].
+Qed.
+Theorem backrefs_loop_spec cs y h : In h (backrefs_loop cs y) <->
+  exists c, In c cs /\ fst c = h /\ exists vs, In (Some vs) (snd c) /\ In y vs.
+Proof.
+  unfold backrefs_loop. rewrite in_map_iff. split.
+  - intros [c [E Hc]]. apply filter_In in Hc as [Hc Hp]. apply paths_hit_spec in Hp. eauto.
+  - intros [c [Hc [E Hp]]]. exists c. split; [exact E|]. apply filter_In. split; [exact Hc|]. now apply paths_hit_spec.
+Qed.
+(* each candidate is reported at most once, in candidate order *)
+Theorem backrefs_loop_nodup cs y : NoDup (map fst cs) -> NoDup (backrefs_loop cs y).
+Proof.
+  unfold backrefs_loop. induction cs as [|c cs IH]; intros H; [constructor|]. cbn [map] in H. apply NoDup_cons_iff in H as [Hn Hd].
+  cbn [filter]. destruct (paths_hit y (snd c)); [|now apply IH]. cbn [map]. constructor; [|now apply IH].
+  intros Hin. apply Hn. apply in_map_iff in Hin as [c' [E Hc']]. apply filter_In in Hc' as [Hc' _]. apply in_map_iff. eauto.
+Qed.
+Theorem backrefs_break_refuted :
+  backrefs_loop [(1, [None; Some [42]])] 42 = [1] /\ backrefs_loop_break [(1, [None; Some [42]])] 42 = [].
+Proof. split; reflexivity. Qed.
+
 (* ---- list filters ---- *)
 Lemma filter_partition_perm {A} (p : A -> bool) l : Permutation l (filter p l ++ filter (fun x => negb (p x)) l).
 Proof.
